@@ -10,6 +10,8 @@
 #include <sys/mman.h>
 
 #include "checks/stream_corpus.h"
+#include "draco/animation/keyframe_animation.h"
+#include "draco/animation/keyframe_animation_decoder.h"
 #include "mc/alloc_env.h"
 
 using namespace mcg;
@@ -79,8 +81,8 @@ uint64_t budget(size_t len) {
 // ---------------------------------------------------------------- one decode + oracles
 // entry: 0 dispatch on header; 1 dispatch + skip all attribute transforms;
 // 2 the other geometry type's entry point; 3 DecodeBufferToGeometry(PointCloud*);
-// 4 DecodeBufferToGeometry(Mesh*)
-const int kEntries = 5;
+// 4 DecodeBufferToGeometry(Mesh*); 5 KeyframeAnimationDecoder::Decode
+const int kEntries = 6;
 
 void run_decode(const Bytes &stream, int entry, mc::Ctx &ctx, const std::string &klass, const std::string &what) {
   auto sig = [&](const std::string &s) { return klass.empty() ? s : s + "|" + klass; };
@@ -112,6 +114,13 @@ void run_decode(const Bytes &stream, int entry, mc::Ctx &ctx, const std::string 
       Status st = d.DecodeBufferToGeometry(&b, pc.get());
       ok = st.ok();
       if (!ok) pc.reset();
+    } else if (entry == 5) {
+      std::unique_ptr<KeyframeAnimation> a(new KeyframeAnimation());
+      KeyframeAnimationDecoder ad;
+      DecoderOptions dopt;
+      Status st = ad.Decode(dopt, &b, a.get());
+      ok = st.ok();
+      if (ok) pc = std::move(a);
     } else if (entry == 4) {
       std::unique_ptr<Mesh> m(new Mesh());
       Status st = d.DecodeBufferToGeometry(&b, m.get());
@@ -366,7 +375,7 @@ int main(int argc, char **argv) {
                    ">= 3 simultaneous deviations are not explored; streams > 4 KiB only by truncation and reduced alphabets"};
   R.transition_counters = {"decode_ok", "decode_rejected", "decode_threw"};
 
-  const std::vector<int> modes_q = {0, 1}, modes_all = {0, 1, 2, 3, 4}, mode0 = {0};
+  const std::vector<int> modes_q = {0, 1}, modes_all = {0, 1, 2, 3, 4, 5}, mode0 = {0};
   std::vector<int> all_gen, small_files, all_small;
   for (size_t i = 0; i < g_corpus.size(); ++i) {
     if (g_corpus[i].gen >= 0) all_gen.push_back((int)i);
